@@ -1071,6 +1071,84 @@ func genRedefineScenario(c *gctx, strict bool) {
 }
 
 // histories around run-once converters and Redefine (C09, C11)
+// genRedefNameScenario: a redefine scenario whose input/output filters also
+// test Value.Name / Value.Subtype (what a caller-written FilterFunc can do):
+// same-typed vertices are treated differently by name.
+func genRedefNameScenario(c *gctx, strict bool) {
+	genRedefineScenario(c, strict)
+	r := c.r
+	var names, subs []string
+	seenN, seenS := map[string]bool{}, map[string]bool{}
+	note := func(fs []Field) {
+		for _, f := range fs {
+			n := strings.ToLower(f.Name)
+			if !seenN[n] {
+				seenN[n] = true
+				names = append(names, n)
+			}
+			if !seenS[f.Sub] {
+				seenS[f.Sub] = true
+				subs = append(subs, f.Sub)
+			}
+		}
+	}
+	for _, f := range c.sc.Funcs {
+		note(f.In)
+		note(f.Out)
+	}
+	if !seenN[""] {
+		names = append(names, "")
+	}
+	if !seenS[""] {
+		subs = append(subs, "")
+	}
+	test := func() Flt {
+		var alts []Flt
+		for _, n := range names {
+			if r.chance(50) {
+				alts = append(alts, Flt{Kind: 3, Name: n})
+			}
+		}
+		if r.chance(25) {
+			alts = append(alts, Flt{Kind: 4, Name: subs[r.intn(len(subs))]})
+		}
+		if r.chance(15) {
+			alts = append(alts, Flt{Kind: 3, Name: "nosuchname"})
+		}
+		return Flt{Kind: 1, Subs: alts}
+	}
+	rewrite := func(opts []Opt) bool {
+		hit := false
+		for i := range opts {
+			if (opts[i].Kind == "filterin" || opts[i].Kind == "filterout") && opts[i].Flt != nil {
+				old := *opts[i].Flt
+				if r.chance(60) {
+					opts[i].Flt = &Flt{Kind: 2, Subs: []Flt{old, test()}} // old AND name test
+				} else {
+					opts[i].Flt = &Flt{Kind: 1, Subs: []Flt{old, test()}} // old OR name test
+				}
+				hit = true
+			}
+		}
+		return hit
+	}
+	for i := range c.sc.Ops {
+		op := &c.sc.Ops[i]
+		if op.SharePrefix > 0 || op.ShareOpts > 0 || op.SliceOf > 0 {
+			return // option slices shared between operations: leave the scenario as generated
+		}
+	}
+	for i := range c.sc.Ops {
+		op := &c.sc.Ops[i]
+		h1 := rewrite(op.Defaults)
+		h2 := rewrite(op.Opts)
+		if op.Kind == "redefine" && !h1 && !h2 {
+			t := test()
+			op.Opts = append(op.Opts, Opt{Kind: "filterin", Flt: &t})
+		}
+	}
+}
+
 func genOnceScenario(c *gctx) {
 	r := c.r
 	c.built = r.chance(40)
@@ -1728,6 +1806,8 @@ func init() {
 	register(resolverStream("convert", genConvertScenario))
 	register(resolverStream("redefine", func(c *gctx) { genRedefineScenario(c, false) }))
 	register(resolverStream("redefstrict", func(c *gctx) { genRedefineScenario(c, true) }))
+	register(resolverStream("redefname", func(c *gctx) { genRedefNameScenario(c, false) }))
+	register(resolverStream("redefnamestrict", func(c *gctx) { genRedefNameScenario(c, true) }))
 	register(resolverStream("once", genOnceScenario))
 	// C10 twin: Call on a hand-written identity function
 	register(twinStream("converttwin", "run_twin CFull 0", genConvertScenario, func(tw *Scenario) (*Scenario, func(a, b []string) bool) {
